@@ -324,6 +324,10 @@ func monitor(c hxlib.Case, outs []string) (vs []hxlib.Violation) {
 			add(i, "C11:"+f[0]+"-does-not-terminate-normally", "parsing/printing must end with a query or an error, got: "+o)
 			continue
 		}
+		if o == "bad-tables" || o == "unstable" {
+			add(i, "C11:"+f[0]+"-not-repeatable", "the same input/object gave different Print/tokenizer/Check results when used a second time: "+o)
+			continue
+		}
 		switch f[0] {
 		case "parse":
 			// terminates with a checked query or an error
